@@ -166,10 +166,10 @@ CHECKS['C10'] = dict(
     design='3/C10', technique=TECH)
 CHECKS['C15'] = dict(
     text='The real commands._reset (reset and force_reset) with get_integration_branches, get_commit_diff, Commit.parents/author, '
-         'Branch.remove and push runs on an explicit-DAG symbolic repository: every commit's parents and author flag and all ref '
+         'Branch.remove and push runs on an explicit-DAG symbolic repository: the parents of every commit and author flag and all ref '
          'tips are symbolic, git log A..B is decided commit by commit. z3 decides per path: reset refuses iff the integration branch '
          'holds manual work (least-fixpoint oracle unrolled in z3, contributor merge commits count), a refusing reset touches '
-         'nothing, a completing one deletes exactly this PR's integration branches and declines exactly its integration PRs. '
+         'nothing, a completing one deletes exactly the integration branches of this PR and declines exactly its integration PRs. '
          'Bounded: 4 commits (thorough 5), one integration branch.',
     note='Partial/bounded. Assumes git log lists children before parents and that the robot only authors merge commits. Sampled '
          'path witnesses and every counterexample are rebuilt as real repositories (real authors, parents) and run through the '
